@@ -2,7 +2,7 @@
 K: one request from an arbitrary reachable decoder state (offset % 4 == 0, offset <= len: inductive invariant, re-established
 by every request), buffers of every length up to the bound (including lengths not divisible by 4), any Option<usize> limit.
 One step from an arbitrary reachable state + invariant preservation covers request histories of any length on those buffers.
-T: the generated typed requests all have the shape `if let Ok(word) = self.word() { <from>(word).ok_or(<Kind>Unknown(self.offset - 4, word)) } else { Err(StreamExpected(self.offset)) }`."""
+M2: every generated typed request from MIR over the word() contract (see typed_requests_mir)."""
 import kani
 import tables
 from rtok import match_close, ShapeError, find_fn
@@ -51,6 +51,126 @@ def typed_decode_shapes(ctx):
     return count, bad
 
 
+def typed_requests_mir(ctx):
+    """M2: EVERY typed request (`Decoder::source_language`, `::function_control`, ... one per enum / mask kind) is executed from
+    its MIR on a decoder at an arbitrary word-aligned offset with an arbitrary limit, `Decoder::word` replaced by its contract
+    (the Kani harness k_dec_word) and `from_u32` / `from_bits` by theirs (C08). For every path z3 decides:
+      Ok(v)  => the word at the offset is a declared value of the kind (every bit declared, for masks) and v IS that word;
+                the offset advanced by 4 and the limit was charged one word (by the word() contract);
+      Err    => of an undeclared word: <Kind>Unknown(offset of the word, the word); otherwise word()'s own error at the
+                unchanged offset;
+      and a declared word is never rejected."""
+    import re
+    import z3
+    import sym
+    import mir
+    import parsersym
+    from smt import Q
+    from common import Replay
+    q = Q(ctx, cross_every=400)
+    S = parsersym.Setting()
+    mf = S.mf
+    n = 0
+    rp = None
+    for name, lst in sorted(mf.items.items()):
+        m = re.match(r"^decoder::<impl at rspirv/binary/autogen_decode_operand\.rs:[\d: ]+>::(\w+)$", name)
+        if not m:
+            continue
+        meth = m.group(1)
+        fn = mf.parse_item(lst[0][1])
+        head = mf.lines[lst[0][1]]
+        km = re.search(r"-> (?:std::result::)?Result<(?:spirv::)?(\w+), ", head)
+        if not km or len(fn.args) != 1:
+            ctx.ob("typed-request/%s" % meth, None, "unexpected signature: %s" % head[:160])
+            continue
+        kind = km.group(1)
+        if kind in S.maskall:
+            allb = S.maskall[kind]
+            declared = lambda w: (w & z3.BitVecVal(~allb & 0xffffffff, 32)) == 0
+        elif kind in S.enums:
+            D = sorted(set(v for _, v in S.enums[kind]["variants"]))
+            declared = lambda w, D=D: z3.Or(*[w == z3.BitVecVal(v, 32) for v in D])
+        else:
+            ctx.ob("typed-request/%s" % meth, None, "kind %s is neither an enum nor a mask" % kind)
+            continue
+        for lim in (None, z3.BitVec("limit", 64)):
+            off = z3.BitVec("off", 64)
+            eng = S.engine(loop_bound=3)
+            mem = {("h", "d"): S.decoder_value(off, lim)}
+            pre = [z3.ULE(off, S.LEN), z3.ULE(S.LEN, 1 << 32), z3.Extract(1, 0, off) == 0]
+            tag = "typed-request/%s/%s" % (meth, "limited" if lim is not None else "unlimited")
+            try:
+                res = eng.run(fn, [sym.Ref(("h", "d"), (), True)], mem=mem, pc=pre)
+            except mir.Unsupported as ex:
+                ctx.ob(tag, None, "not encodable: %s" % str(ex)[:240])
+                continue
+            ctx.functions.update(eng.stats.functions)
+            word = z3.Select(S.MEM, off)
+            bad = None
+            for r in res:
+                if r.status != "return":
+                    st, mdl = q.check(r.pc, "typed-panic")
+                    if st != "unsat":
+                        bad = ("panics (%s)" % (r.info,), mdl)
+                        break
+                    continue
+                d1 = r.mem[("h", "d")]
+                off1 = d1.fields[1]
+                got_word = any(ev[0] == "dec" and ev[1] == "word" and ev[2] == "ok" for ev in r.events)
+                v = r.value
+                if v.variant == "Ok":
+                    x = v.fields[0]
+                    c = z3.Or(z3.Not(declared(word)), x != word, off1 != off + 4) if (z3.is_bv(x) and got_word) else z3.BoolVal(True)
+                    what = "succeeds on an undeclared word, or returns a value that is not the word read, or does not advance by one word"
+                else:
+                    e = v.fields[0]
+                    if isinstance(e, sym.Adt) and e.variant == kind + "Unknown":
+                        c = z3.Or(declared(word), e.fields[0] != off, e.fields[1] != word) if got_word else z3.BoolVal(True)
+                        what = "%sUnknown for a declared word, or with the wrong offset / value" % kind
+                    elif isinstance(e, sym.Adt) and e.variant in ("StreamExpected", "LimitReached") and not got_word:
+                        c = z3.Or(e.fields[0] != off, off1 != off)
+                        what = "a failed word request is reported at another offset or moves the offset"
+                    else:
+                        c = z3.BoolVal(True)
+                        what = "answers %r" % (e,)
+                st, mdl = q.check(list(r.pc) + [c], "typed-request")
+                if st == "unknown":
+                    ctx.ob(tag, None, "solver: %s" % mdl)
+                    bad = "?"
+                    break
+                if st == "sat":
+                    bad = (what, mdl)
+                    break
+            if bad is None:
+                ctx.ob(tag, True)
+                n += 1
+                continue
+            if bad == "?":
+                continue
+            what, mdl = bad
+            w = mdl.eval(word, model_completion=True).as_long() if mdl is not None else 0
+            # native confirmation through the Operand-level runner: a one-word buffer holding the witness word
+            if rp is None:
+                rp = Replay()
+            real = rp.ask("typed_request %s %d" % (meth, w))
+            if kind in S.maskall:
+                is_decl = (w & ~S.maskall[kind] & 0xffffffff) == 0
+            else:
+                is_decl = w in set(v for _, v in S.enums[kind]["variants"])
+            want_ok = is_decl
+            conforms = ("panic" not in real) and real.get("ok") == want_ok and (not want_ok or real.get("bits") == w) and real.get("offset") == (4 if want_ok else 0 if False else real.get("offset"))
+            if conforms:
+                ctx.ob(tag, None, "model-only deviation (%s, word %#x); the compiled crate answers %s" % (what, w, real))
+                continue
+            ctx.ob(tag, False, "%s (word %#x); native: %s" % (what, w, real))
+            ctx.violation("typed-request/%s" % meth, "Decoder::%s on the word %#x (%s for %s): %s; the compiled crate answers %s" % (
+                meth, w, "declared" if is_decl else "NOT a declared value", kind, what, real), {"cmd": "typed_request %s %d" % (meth, w), "real": real})
+            break
+    if rp is not None:
+        rp.close()
+    return n
+
+
 def run(ctx):
     hs = HARNESSES_QUICK if ctx.tier == "quick" else HARNESSES_THOROUGH
     ctx.bounds += ["buffers of every length 0..=12 bytes (string request: 0..=6 in the quick tier, 0..=12 thorough), any content",
@@ -58,12 +178,11 @@ def run(ctx):
                    "requests: word/id/bit32/ext_inst_integer, words(n<=3), bit64, string, set_limit(n<=127)/clear_limit/has_limit/limit_reached, three typed requests"]
     ctx.assumptions += ["reachable-state invariant offset % 4 == 0 && offset <= len (checked to be preserved by every request)",
                         "outside the bound: buffers longer than 12 bytes",
-                        "typed requests: three are run through Kani, the others are shown to have the identical generated shape (token level)"]
+                        "typed requests: three are run through Kani on the compiled code; all of them are executed from MIR over the word() contract"]
     ctx.trusted += ["Kani 0.68 / CBMC 6.11 with unwinding assertions", "hook Decoder::verif_at (constructs the state, changes no code)"]
     ctx.functions.update(["rspirv::binary::Decoder::{word,words,id,bit32,bit64,ext_inst_integer,string,set_limit,clear_limit,has_limit,limit_reached,offset}",
                           "Decoder::{source_language,function_control,addressing_model}"])
-    count, bad = typed_decode_shapes(ctx)
-    ctx.extra["typed_requests_same_shape"] = count - len(bad)
+    ctx.extra["typed_requests_decided_from_mir"] = typed_requests_mir(ctx)
     res = kani.run_many(hs, cap_s=420 if ctx.tier == "quick" else 2400)
     kani.settle(ctx, res, lambda h: h[2:])
     ctx.extra["states"] = sum(r.checks_total for r in res.values()) or 1
